@@ -1,4 +1,4 @@
-//go:build verif
+//go:build c14
 
 package verifharness
 
@@ -45,6 +45,11 @@ import (
 	banktypes "github.com/cosmos/cosmos-sdk/x/bank/types"
 	govtypes "github.com/cosmos/cosmos-sdk/x/gov/types"
 
+	transfertypes "github.com/cosmos/ibc-go/v3/modules/apps/transfer/types"
+	ibcclienttypes "github.com/cosmos/ibc-go/v3/modules/core/02-client/types"
+	channeltypes "github.com/cosmos/ibc-go/v3/modules/core/04-channel/types"
+	ibcexported "github.com/cosmos/ibc-go/v3/modules/core/exported"
+
 	"github.com/ethereum/go-ethereum/common"
 	ethtypes "github.com/ethereum/go-ethereum/core/types"
 	"github.com/ethereum/go-ethereum/crypto"
@@ -61,6 +66,7 @@ import (
 	rvestingtypes "github.com/teleport-network/teleport/x/rvesting/types"
 	xibcbsctypes "github.com/teleport-network/teleport/x/xibc/clients/light-clients/bsc/types"
 	xibcethtypes "github.com/teleport-network/teleport/x/xibc/clients/light-clients/eth/types"
+	tsstypes "github.com/teleport-network/teleport/x/xibc/clients/tss-client/types"
 	clienttypes "github.com/teleport-network/teleport/x/xibc/core/client/types"
 	"github.com/teleport-network/teleport/x/xibc/core/host"
 	packettypes "github.com/teleport-network/teleport/x/xibc/core/packet/types"
@@ -124,6 +130,11 @@ type c14World struct {
 	bscHdrs []*xibcbsctypes.BscHeader
 	bscNext int
 	bscOn   int
+	tssOn    int
+	eth4On   int
+	eth4Head xibcethtypes.Header
+	t0       uint64 // wall-clock anchor of the run (VERIF_C14_T0), the same for both twins
+	bias     int64  // seconds relative to T0 at which this twin delivers `ethnow`
 	erc20   [2]common.Address
 	propID  [2]uint64
 	repo    string
@@ -241,6 +252,43 @@ func (w *c14World) deliver(kind string, c *xibctesting.TestChain, msgs ...sdk.Ms
 	return res
 }
 
+// evmDeliver sends an EVM transaction of the chain's sender through the real ABCI DeliverTx: ethermint ante handler
+// (signature, nonce, fee deduction against the feemarket base fee), state transition, hooks, refund. The sender was
+// funded at start (see c14Child). The keeper-level path evmCall stays for the ops with suffix "k".
+func (w *c14World) evmDeliver(kind string, c *xibctesting.TestChain, to common.Address, amount *big.Int, data []byte) ([]abci.Event, bool) {
+	w.coord.UpdateTimeForChain(c)
+	ctx := c.GetContext()
+	chainID := c.App.EvmKeeper.ChainID()
+	nonce := c.App.EvmKeeper.GetNonce(ctx, c.SenderAddress)
+	feeCap := big.NewInt(2_000_000_000)
+	if bf := c.App.FeeMarketKeeper.GetBaseFee(ctx); bf != nil {
+		feeCap = new(big.Int).Mul(bf, big.NewInt(2))
+	}
+	tx := evm.NewTx(chainID, nonce, &to, amount, 3_000_000, nil, feeCap, big.NewInt(1), data, &ethtypes.AccessList{})
+	tx.From = c.SenderAddress.Hex()
+	if err := tx.Sign(ethtypes.LatestSignerForChainID(chainID), tests.NewSigner(c.SenderPrivKey)); err != nil {
+		w.note(kind + ":sign-error")
+		w.finish(c)
+		return nil, false
+	}
+	sdkTx, err := tx.BuildTx(c.TxConfig.NewTxBuilder(), sdk.DefaultBondDenom)
+	if err != nil {
+		w.note(kind + ":build-error")
+		w.finish(c)
+		return nil, false
+	}
+	bz, err := c.TxConfig.TxEncoder()(sdkTx)
+	if err != nil {
+		w.note(kind + ":encode-error")
+		w.finish(c)
+		return nil, false
+	}
+	res := c.App.BaseApp.DeliverTx(abci.RequestDeliverTx{Tx: bz})
+	w.recTx(kind, res)
+	w.finish(c)
+	return res.Events, res.Code == 0
+}
+
 // evmCall executes an EVM transaction of the chain's sender through EvmKeeper.EthereumTx in the current block
 // (the path x/xibc/integration_test.go uses; all EVM hooks — xibc packet, aggregate, adapters — run) and records
 // hash, gas, VM error, logs and the emitted sdk events.
@@ -300,6 +348,18 @@ func (w *c14World) tmUpdate(i int) bool {
 	}
 	res := w.deliver("tmupd", c, msg)
 	return res.Code == 0
+}
+
+// c14Relayers registers the chain's sender as relayer of every foreign client the scripts may create (+ the counterparty)
+func (w *c14World) c14Relayers(ctx sdk.Context, i int) {
+	c := w.ch[i]
+	chains := []string{"eth", "bsc", "tss", "eth4"}
+	addrs := []string{c.SenderAcc.String(), c.SenderAcc.String(), c.SenderAcc.String(), c.SenderAcc.String()}
+	if w.path != nil {
+		chains = append(chains, w.ch[1-i].ChainID)
+		addrs = append(addrs, w.ch[1-i].SenderAcc.String())
+	}
+	c.App.XIBCKeeper.ClientKeeper.RegisterRelayers(ctx, c.SenderAcc.String(), chains, addrs)
 }
 
 func c14TypedEvent(evs []abci.Event, name string, f func(m interface{}) bool) {
@@ -383,13 +443,7 @@ func (w *c14World) step(line string) {
 		w.coord.UpdateTimeForChain(c)
 		ctx := c.GetContext()
 		err := c.App.XIBCKeeper.ClientKeeper.CreateClient(ctx, "eth", cs, cons)
-		chains := []string{"eth", "bsc"}
-		addrs := []string{c.SenderAcc.String(), c.SenderAcc.String()}
-		if w.path != nil {
-			chains = append(chains, w.ch[1-i].ChainID)
-			addrs = append(addrs, w.ch[1-i].SenderAcc.String())
-		}
-		c.App.XIBCKeeper.ClientKeeper.RegisterRelayers(ctx, c.SenderAcc.String(), chains, addrs)
+		w.c14Relayers(ctx, i)
 		w.note(fmt.Sprintf("ethnew:%v:e%s", err == nil, c14Events(ctx.EventManager().ABCIEvents())))
 		w.finish(c)
 		w.ethOn, w.ethNext = i, 1
@@ -426,13 +480,7 @@ func (w *c14World) step(line string) {
 		ctx := c.GetContext()
 		var e1 error
 		pan, _ := safely(func() { e1 = c.App.XIBCKeeper.ClientKeeper.CreateClient(ctx, "bsc", cs, cons) })
-		chains := []string{"bsc", "eth"}
-		addrs := []string{c.SenderAcc.String(), c.SenderAcc.String()}
-		if w.path != nil {
-			chains = append(chains, w.ch[1-i].ChainID)
-			addrs = append(addrs, w.ch[1-i].SenderAcc.String())
-		}
-		c.App.XIBCKeeper.ClientKeeper.RegisterRelayers(ctx, c.SenderAcc.String(), chains, addrs)
+		w.c14Relayers(ctx, i)
 		w.note(fmt.Sprintf("bscnew:%v:%v:e%s", pan, e1 == nil, c14Events(ctx.EventManager().ABCIEvents())))
 		w.finish(c)
 		w.bscOn = i
@@ -455,6 +503,134 @@ func (w *c14World) step(line string) {
 			break
 		}
 		w.deliver("bscupd", c, msgs...)
+	case "tssnew": // TSS client (no consensus heights): created on chain 0's side of the script, sender = relayer
+		i := ci(1)
+		c := w.ch[i]
+		if w.tssOn >= 0 {
+			w.note("tssnew:skipped")
+			break
+		}
+		w.coord.UpdateTimeForChain(c)
+		ctx := c.GetContext()
+		cs := &tsstypes.ClientState{TssAddress: c.SenderAcc.String(), Pubkey: crypto.Keccak256([]byte("c14-tss-pub")), PartPubkeys: [][]byte{{1}, {2}, {3}}, Threshold: 2}
+		var e1 error
+		pan, _ := safely(func() { e1 = c.App.XIBCKeeper.ClientKeeper.CreateClient(ctx, "tss", cs, &tsstypes.ConsensusState{}) })
+		w.c14Relayers(ctx, i)
+		w.note(fmt.Sprintf("tssnew:%v:%v:e%s", pan, e1 == nil, c14Events(ctx.EventManager().ABCIEvents())))
+		w.finish(c)
+		w.tssOn = i
+	case "tssupd": // MsgUpdateClient with a TSS header (new key set)
+		if w.tssOn < 0 {
+			w.note("tssupd:skipped")
+			break
+		}
+		c := w.ch[w.tssOn]
+		n := argi(1)
+		parts := [][]byte{}
+		for j := int64(0); j <= n%4; j++ {
+			parts = append(parts, crypto.Keccak256([]byte(fmt.Sprintf("c14-tss-part-%d-%d", n, j))))
+		}
+		tssAddr := c.SenderAcc.String()
+		if n%7 == 6 {
+			tssAddr = sdk.AccAddress(crypto.Keccak256([]byte("c14-tss-" + f[1]))[:20]).String() // hands the client over: later updates by the sender are refused
+		}
+		h := &tsstypes.Header{TssAddress: tssAddr, Pubkey: crypto.Keccak256([]byte("c14-tss-pub-" + f[1])), PartPubkeys: parts, Threshold: uint64(1 + n%3)}
+		msg, err := clienttypes.NewMsgUpdateClient("tss", h, c.SenderAcc)
+		if err != nil {
+			w.note("tssupd:pack-error")
+			break
+		}
+		w.deliver("tssupd", c, msg)
+	case "eth4new": // ETH client of chain id 4 (no PoW); `ethnow` dates a header relative to the run's T0 (wall clock)
+		i := ci(1)
+		c := w.ch[i]
+		if w.eth4On >= 0 || w.t0 == 0 {
+			w.note("eth4new:skipped")
+			break
+		}
+		g := c14EthGenesis(1632440000) // before the block time of the scripts (2021-09-24): `ethold` headers pass the time checks
+		w.eth4Head = g
+		w.coord.UpdateTimeForChain(c)
+		ctx := c.GetContext()
+		cs := &xibcethtypes.ClientState{Header: g, ChainId: 4, ContractAddress: []byte("0x00"), TrustingPeriod: 1 << 40, TimeDelay: 0, BlockDelay: 1}
+		var e1 error
+		pan, _ := safely(func() {
+			e1 = c.App.XIBCKeeper.ClientKeeper.CreateClient(ctx, "eth4", cs, &xibcethtypes.ConsensusState{Timestamp: g.Time, Height: g.Height, Root: g.Root})
+		})
+		w.c14Relayers(ctx, i)
+		w.note(fmt.Sprintf("eth4new:%v:%v", pan, e1 == nil))
+		w.finish(c)
+		w.eth4On = i
+	case "ethnow": // header dated T0+15+k: the twins deliver it at wall-clock times T0-2 and T0+2 — a time.Now() in the
+		// future-block check accepts it in one twin only; the block time (2021) rejects it in both
+		if w.eth4On < 0 {
+			w.note("ethnow:skipped")
+			break
+		}
+		c := w.ch[w.eth4On]
+		target := time.Unix(int64(w.t0)+w.bias, 0)
+		if d := time.Until(target); d > 0 && d < 60*time.Second {
+			time.Sleep(d)
+		}
+		if time.Now().Unix() < int64(w.t0) {
+			w.note("wall=early") // informational, stripped by the parent before the comparison
+		} else {
+			w.note("wall=late")
+		}
+		h := c14EthHeader(&w.eth4Head, w.t0+15+uint64(argi(1)))
+		msg, err := clienttypes.NewMsgUpdateClient("eth4", &h, c.SenderAcc)
+		if err != nil {
+			w.note("ethnow:pack-error")
+			break
+		}
+		w.deliver("ethnow", c, msg)
+	case "ethold": // a header of the eth4 client dated in the past of the block time: accepted by the time checks
+		if w.eth4On < 0 {
+			w.note("ethold:skipped")
+			break
+		}
+		c := w.ch[w.eth4On]
+		h := c14EthHeader(&w.eth4Head, w.eth4Head.Time+12)
+		msg, err := clienttypes.NewMsgUpdateClient("eth4", &h, c.SenderAcc)
+		if err != nil {
+			w.note("ethold:pack-error")
+			break
+		}
+		if res := w.deliver("ethold", c, msg); res.Code == 0 {
+			w.eth4Head = h
+		}
+	case "converterc": // MsgConvertERC20: the ERC20 representation of a registered coin back into the coin
+		c := w.ch[ci(1)]
+		denom := "c14coin" + f[2]
+		ctx := c.GetContext()
+		id := c.App.AggregateKeeper.GetTokenPairID(ctx, denom)
+		pair, found := c.App.AggregateKeeper.GetTokenPair(ctx, id)
+		if !found {
+			w.note("converterc:no-pair")
+			w.coord.UpdateTimeForChain(c)
+			w.finish(c)
+			break
+		}
+		w.deliver("converterc", c, aggregatetypes.NewMsgConvertERC20(sdk.NewInt(argi(3)), c.SenderAcc, common.HexToAddress(pair.ERC20Address), c.SenderAddress, denom))
+	case "ics20": // ICS-20 receive through the aggregate middleware hook: voucher of a registered coin converted for the receiver
+		c := w.ch[ci(1)]
+		w.coord.UpdateTimeForChain(c)
+		ctx := c.GetContext()
+		denom := "transfer/channel-0/c14coin" + f[2]
+		if argi(3)%5 == 0 {
+			denom = "c14coin" + f[2] // receiver chain is not the source: ibc/ voucher, not registered
+		}
+		data := transfertypes.NewFungibleTokenPacketData(denom, strconv.FormatInt(argi(3), 10), "cosmos1sender", c.SenderAcc.String())
+		packet := channeltypes.NewPacket(data.GetBytes(), uint64(1+argi(3)), "transfer", "channel-0", "transfer", "channel-1", ibcclienttypes.NewHeight(0, 1000), 0)
+		ackIn := channeltypes.NewResultAcknowledgement([]byte{1})
+		var ackOut ibcexported.Acknowledgement
+		pan, _ := safely(func() { ackOut = c.App.AggregateKeeper.OnRecvPacket(ctx, packet, ackIn) })
+		ab := []byte{}
+		if ackOut != nil {
+			ab = ackOut.Acknowledgement()
+		}
+		w.note(fmt.Sprintf("ics20:%v:a%s:e%s", pan, c14Digest(ab), c14Events(ctx.EventManager().ABCIEvents())))
+		w.finish(c)
 	case "erc20": // deploy an ERC20 on the chain and bind it as the image of the counterparty's base token
 		i := ci(1)
 		c, cp := w.ch[i], w.ch[1-i]
@@ -474,7 +650,7 @@ func (w *c14World) step(line string) {
 		w.erc20[i] = addr
 		w.note(fmt.Sprintf("erc20:%v:%v:%v:%s:e%s", pan, e1 == nil, e2 == nil, c14Digest(addr.Bytes()), c14Events(ctx.EventManager().ABCIEvents())))
 		w.finish(c)
-	case "xsend": // cross chain call (base token transfer) through the endpoint system contract
+	case "xsend", "xsendk": // cross chain call (base token transfer) through the endpoint system contract
 		i := ci(1)
 		c, cp := w.ch[i], w.ch[1-i]
 		zero := common.Address{}
@@ -486,7 +662,12 @@ func (w *c14World) step(line string) {
 			w.note("xsend:pack-error")
 			break
 		}
-		evs, _ := w.evmCall("xsend", c, endpointcontract.EndpointContractAddress, big.NewInt(argi(2)+argi(3)), data)
+		var evs []abci.Event
+		if f[0] == "xsendk" {
+			evs, _ = w.evmCall("xsend", c, endpointcontract.EndpointContractAddress, big.NewInt(argi(2)+argi(3)), data)
+		} else {
+			evs, _ = w.evmDeliver("xsend", c, endpointcontract.EndpointContractAddress, big.NewInt(argi(2)+argi(3)), data)
+		}
 		c14TypedEvent(evs, "xibc.core.packet.v1.EventSendPacket", func(m interface{}) bool {
 			ev, ok := m.(*packettypes.EventSendPacket)
 			if !ok {
@@ -550,8 +731,8 @@ func (w *c14World) step(line string) {
 			content = aggregatetypes.NewRegisterCoinProposal("t", "d", banktypes.Metadata{Description: "c14", Base: denom, Display: denom, Name: denom, Symbol: "C" + f[3],
 				DenomUnits: []*banktypes.DenomUnit{{Denom: denom, Exponent: 0}}})
 		case "relayer":
-			content = clienttypes.NewRegisterRelayerProposal("t", "d", c.SenderAcc.String(), []string{w.ch[1-i].ChainID, "eth", "bsc", "chain" + f[3]},
-				[]string{w.ch[1-i].SenderAcc.String(), c.SenderAcc.String(), c.SenderAcc.String(), "0x00" + f[3]})
+			content = clienttypes.NewRegisterRelayerProposal("t", "d", c.SenderAcc.String(), []string{w.ch[1-i].ChainID, "eth", "bsc", "tss", "eth4", "chain" + f[3]},
+				[]string{w.ch[1-i].SenderAcc.String(), c.SenderAcc.String(), c.SenderAcc.String(), c.SenderAcc.String(), c.SenderAcc.String(), "0x00" + f[3]})
 		case "ethclient":
 			if len(w.ethHdrs) == 0 {
 				w.note("prop:skipped")
@@ -568,6 +749,31 @@ func (w *c14World) step(line string) {
 			content = p
 		case "toggle":
 			content = aggregatetypes.NewToggleTokenRelayProposal("t", "d", "c14coin"+f[3])
+		case "upgradec", "togglec": // client upgrade (same type, newer header) / toggle (eth client replaced by a tss client)
+			if len(w.ethHdrs) < 2 {
+				w.note("prop:skipped")
+				return
+			}
+			var cs exported.ClientState
+			var cons exported.ConsensusState
+			if f[2] == "upgradec" {
+				h := w.ethHdrs[1]
+				cs = &xibcethtypes.ClientState{Header: h.ToHeader(), ChainId: 1, ContractAddress: []byte("0x00"), TrustingPeriod: 999999999, TimeDelay: 0, BlockDelay: 1}
+				cons = &xibcethtypes.ConsensusState{Timestamp: h.Time, Height: clienttypes.NewHeight(0, h.Number.Uint64()), Root: h.Root[:]}
+			} else {
+				cs = &tsstypes.ClientState{TssAddress: c.SenderAcc.String(), Pubkey: crypto.Keccak256([]byte("c14-toggle-" + f[3])), PartPubkeys: [][]byte{{7}}, Threshold: 1}
+				cons = &tsstypes.ConsensusState{}
+			}
+			var err error
+			if f[2] == "upgradec" {
+				content, err = clienttypes.NewUpgradeClientProposal("t", "d", "ethp"+f[3], cs, cons)
+			} else {
+				content, err = clienttypes.NewToggleClientProposal("t", "d", "ethp"+f[3], cs, cons)
+			}
+			if err != nil {
+				w.note("prop:pack-error")
+				return
+			}
 		default:
 			w.note("prop:unknown")
 			return
@@ -610,8 +816,8 @@ func (w *c14World) step(line string) {
 		w.deliver("convert", c, aggregatetypes.NewMsgConvertCoin(sdk.NewInt64Coin(f[2], argi(3)), c.SenderAddress, c.SenderAcc))
 	case "evmpay": // plain EVM value transfer
 		c := w.ch[ci(1)]
-		w.evmCall("evmpay", c, common.BytesToAddress(crypto.Keccak256([]byte("c14-evm-"+f[2]))[:20]), big.NewInt(argi(3)), nil)
-	case "evmstake": // staking system contract: delegate(validator, amount) -> adapter hook -> MsgDelegate
+		w.evmDeliver("evmpay", c, common.BytesToAddress(crypto.Keccak256([]byte("c14-evm-"+f[2]))[:20]), big.NewInt(argi(3)), nil)
+	case "evmstake", "evmstakek": // staking system contract: delegate(validator, amount) -> adapter hook -> MsgDelegate
 		c := w.ch[ci(1)]
 		vals := c.App.StakingKeeper.GetAllValidators(c.GetContext())
 		if len(vals) == 0 {
@@ -628,7 +834,11 @@ func (w *c14World) step(line string) {
 			w.note("evmstake:pack-error")
 			break
 		}
-		w.evmCall("evmstake", c, common.HexToAddress(syscontracts.StakingContractAddress), big.NewInt(0), data)
+		if f[0] == "evmstakek" {
+			w.evmCall("evmstake", c, common.HexToAddress(syscontracts.StakingContractAddress), big.NewInt(0), data)
+		} else {
+			w.evmDeliver("evmstake", c, common.HexToAddress(syscontracts.StakingContractAddress), big.NewInt(0), data)
+		}
 	case "rvest": // reward vesting: parameters through the real Subspace.Update validation, pool funded; BeginBlocker pays
 		c := w.ch[ci(1)]
 		w.coord.UpdateTimeForChain(c)
@@ -675,7 +885,7 @@ func c14Child(t *testing.T) {
 		t.Fatal(err)
 	}
 	defer of.Close()
-	w := &c14World{t: t, out: bufio.NewWriter(of), ethOn: -1, bscOn: -1, repo: os.Getenv("VERIF_C14_REPO")}
+	w := &c14World{t: t, out: bufio.NewWriter(of), ethOn: -1, bscOn: -1, tssOn: -1, eth4On: -1, t0: uint64(envInt("VERIF_C14_T0", 0)), bias: envInt("VERIF_C14_BIAS", 0), repo: os.Getenv("VERIF_C14_REPO")}
 	defer w.out.Flush()
 	var lines []string
 	for _, l := range strings.Split(string(script), "\n") {
@@ -685,6 +895,9 @@ func c14Child(t *testing.T) {
 	}
 	if len(lines) == 0 || !strings.HasPrefix(lines[0], "seed ") {
 		t.Fatal("script must start with `seed <hex>`")
+	}
+	if d := envInt("VERIF_C14_START_DELAY", 0); d > 0 {
+		time.Sleep(time.Duration(d) * time.Second) // this twin lives later on the wall clock
 	}
 	rd := &c14Rand{seed: sha256.Sum256([]byte(lines[0]))}
 	crand.Reader = rd
@@ -700,6 +913,16 @@ func c14Child(t *testing.T) {
 	w.coord = xibctesting.NewCoordinator(t, 2)
 	w.ch[0] = w.coord.GetChain(xibctesting.GetChainID(0))
 	w.ch[1] = w.coord.GetChain(xibctesting.GetChainID(1))
+	// fund the senders for the base fee of EVM transactions sent through DeliverTx (like a larger genesis allocation)
+	for _, c := range w.ch {
+		w.coord.UpdateTimeForChain(c)
+		ctx := c.GetContext()
+		coins := sdk.NewCoins(sdk.NewCoin(sdk.DefaultBondDenom, sdk.NewIntWithDecimal(1, 30)))
+		if err := c.App.BankKeeper.MintCoins(ctx, "aggregate", coins); err == nil {
+			_ = c.App.BankKeeper.SendCoinsFromModuleToAccount(ctx, "aggregate", c.SenderAcc, coins)
+		}
+		w.finish(c)
+	}
 	w.note(fmt.Sprintf("tmp=%t", c14TmpUsable())) // informational, stripped by the parent before the comparison
 	w.emit(0, lines[0])
 	for i, l := range lines[1:] {
@@ -746,10 +969,16 @@ func c14Script(r *Rec, n int, eth int) []string {
 	// xibctesting starts at 2020-01-02; main-net header 13286181 is from 2021-09-24 (1632455201)
 	s = append(s, fmt.Sprintf("warp %d", 1632455201+600-1577923200+rng.Intn(3000)))
 	s = append(s, "clients")
+	// wall clock: an ETH client (chain id 4) dated relative to the run's T0; `ethnow` is delivered by twin a before and
+	// by twin b after the instant at which a time.Now()-based future-block check would start to accept the header
+	s = append(s, "eth4new 0", "ethold", "ethnow 0", "ethold")
+	r.Count("op.ethnow")
 	ethLeft := eth
 	ethNew := false
 	bscNew := false
 	coins := [2]int{}
+	ethp := [2][]int{}
+	tssNew := false
 	pend := 0
 	erc := [2]bool{}
 	for len(s) < n {
@@ -789,7 +1018,11 @@ func c14Script(r *Rec, n int, eth int) []string {
 				r.Count("op.erc20")
 			}
 		case k < 56:
-			s = append(s, fmt.Sprintf("xsend %d %d %d", c, 1+rng.Intn(500), rng.Intn(50)))
+			op := "xsend"
+			if rng.Intn(5) == 0 {
+				op = "xsendk"
+			}
+			s = append(s, fmt.Sprintf("%s %d %d %d", op, c, 1+rng.Intn(500), rng.Intn(50)))
 			pend++
 			r.Count("op.xsend")
 		case k < 70:
@@ -799,12 +1032,21 @@ func c14Script(r *Rec, n int, eth int) []string {
 				r.Count("op.relay")
 			}
 		case k < 78:
-			kinds := []string{"coin", "coin", "relayer", "ethclient", "toggle"}
+			kinds := []string{"coin", "coin", "relayer", "ethclient", "ethclient", "toggle", "upgradec", "togglec"}
 			kd := kinds[rng.Intn(len(kinds))]
 			if kd == "toggle" && coins[c] == 0 {
 				kd = "coin"
 			}
+			if (kd == "upgradec" || kd == "togglec") && len(ethp[c]) == 0 {
+				kd = "ethclient"
+			}
 			arg := len(s)
+			if kd == "ethclient" {
+				ethp[c] = append(ethp[c], arg)
+			}
+			if kd == "upgradec" || kd == "togglec" {
+				arg = ethp[c][rng.Intn(len(ethp[c]))]
+			}
 			if kd == "coin" {
 				coins[c]++
 				arg = coins[c]
@@ -818,14 +1060,36 @@ func c14Script(r *Rec, n int, eth int) []string {
 				r.Count("op.convert")
 			}
 			r.Count("op.prop." + kd)
-		case k < 83:
+		case k < 81:
 			s = append(s, fmt.Sprintf("convert %d %s %d", c, []string{"stake", "c14coin1", "c14coin2", "nope"}[rng.Intn(4)], 1+rng.Intn(100)))
 			r.Count("op.convert")
+		case k < 84:
+			if coins[c] > 0 {
+				n := 1 + rng.Intn(coins[c])
+				s = append(s, fmt.Sprintf("convert %d c14coin%d %d", c, n, 200+rng.Intn(100)), fmt.Sprintf("converterc %d %d %d", c, n, 1+rng.Intn(150)))
+				r.Count("op.converterc")
+			}
+		case k < 86:
+			if coins[c] > 0 {
+				s = append(s, fmt.Sprintf("ics20 %d %d %d", c, 1+rng.Intn(coins[c]), 1+rng.Intn(60)))
+				r.Count("op.ics20")
+			}
 		case k < 89:
+			if !tssNew {
+				s = append(s, "tssnew 0")
+				tssNew = true
+			}
+			s = append(s, fmt.Sprintf("tssupd %d", rng.Intn(30)))
+			r.Count("op.tssupd")
+		case k < 92:
 			s = append(s, fmt.Sprintf("evmpay %d %d %d", c, rng.Intn(4), rng.Intn(1000)))
 			r.Count("op.evmpay")
-		case k < 94:
-			s = append(s, fmt.Sprintf("evmstake %d %d", c, 1+rng.Intn(100000)))
+		case k < 96:
+			op := "evmstake"
+			if rng.Intn(4) == 0 {
+				op = "evmstakek" // keeper-level path (no ante handler)
+			}
+			s = append(s, fmt.Sprintf("%s %d %d", op, c, 1+rng.Intn(100000)))
 			r.Count("op.evmstake")
 		default:
 			s = append(s, fmt.Sprintf("rvest %d %d %d", c, 1+rng.Intn(50), rng.Intn(400)))
@@ -915,10 +1179,37 @@ func c14Classify(a, b string) string {
 }
 
 var c14TmpNote = regexp.MustCompile(` tmp=(true|false)`)
+var c14WallNote = regexp.MustCompile(` wall=(early|late)`)
 
 // c14Pair runs the twin replay of one script and records ops / findings.
+type c14PairResult struct {
+	outs [2][]string
+	stat [2]string
+}
+
+// c14Pairs runs several twin replays concurrently (the children are separate processes) and records them in order.
+func c14Pairs(t *testing.T, r *Rec, first int, scripts [][]string, repo string) {
+	res := make([]c14PairResult, len(scripts))
+	var wg sync.WaitGroup
+	for i := range scripts {
+		wg.Add(1)
+		go func(i int) {
+			defer wg.Done()
+			res[i] = c14PairRun(t, r.Shard, r.Tier, first+i, scripts[i], repo)
+		}(i)
+	}
+	wg.Wait()
+	for i := range scripts {
+		c14PairRecord(t, r, first+i, scripts[i], res[i])
+	}
+}
+
 func c14Pair(t *testing.T, r *Rec, pair int, script []string, repo string) {
-	dir := filepath.Join(outDir(), fmt.Sprintf("c14.%d.%d", r.Shard, pair))
+	c14PairRecord(t, r, pair, script, c14PairRun(t, r.Shard, r.Tier, pair, script, repo))
+}
+
+func c14PairRun(t *testing.T, shard int, tier string, pair int, script []string, repo string) c14PairResult {
+	dir := filepath.Join(outDir(), fmt.Sprintf("c14.%d.%d", shard, pair))
 	_ = os.MkdirAll(dir, 0o755)
 	sf := filepath.Join(dir, "script")
 	if err := os.WriteFile(sf, []byte(strings.Join(script, "\n")+"\n"), 0o644); err != nil {
@@ -929,9 +1220,15 @@ func c14Pair(t *testing.T, r *Rec, pair int, script []string, repo string) {
 		_ = os.MkdirAll(d, 0o755)
 		return d
 	}
+	// wall clock: twin b starts 3 s later; both get the same anchor T0, twin a delivers `ethnow` at T0-2, twin b at T0+2
+	lead := int64(9)
+	if tier == "thorough" {
+		lead = 20 // 64 children share the machine
+	}
+	t0 := fmt.Sprintf("VERIF_C14_T0=%d", time.Now().Unix()+lead)
 	cfgs := []c14ChildCfg{
-		{name: "a", cwd: mk("cwd-a"), env: []string{"GOMAXPROCS=1", "GOGC=25", "TMPDIR=" + mk("tmp-a"), "HOME=" + mk("home-a"), "TZ=UTC", "LANG=C", "C14_NOISE=alpha"}},
-		{name: "b", cwd: mk("cwd-b"), env: []string{"GOMAXPROCS=4", "GOGC=400", "TMPDIR=" + filepath.Join(dir, "no-such-dir", "tmp"), "HOME=" + filepath.Join(dir, "no-such-dir", "home"),
+		{name: "a", cwd: mk("cwd-a"), env: []string{t0, "VERIF_C14_BIAS=-2", "GOMAXPROCS=1", "GOGC=25", "TMPDIR=" + mk("tmp-a"), "HOME=" + mk("home-a"), "TZ=UTC", "LANG=C", "C14_NOISE=alpha"}},
+		{name: "b", cwd: mk("cwd-b"), env: []string{t0, "VERIF_C14_BIAS=2", "VERIF_C14_START_DELAY=3", "GOMAXPROCS=4", "GOGC=400", "TMPDIR=" + filepath.Join(dir, "no-such-dir", "tmp"), "HOME=" + filepath.Join(dir, "no-such-dir", "home"),
 			"TZ=Asia/Kolkata", "LANG=tr_TR.UTF-8", "C14_NOISE=beta", "GODEBUG=madvdontneed=1", "XDG_CACHE_HOME=/proc/none"}},
 	}
 	var outs [2][]string
@@ -945,6 +1242,11 @@ func c14Pair(t *testing.T, r *Rec, pair int, script []string, repo string) {
 		}(i)
 	}
 	wg.Wait()
+	return c14PairResult{outs: outs, stat: stat}
+}
+
+func c14PairRecord(t *testing.T, r *Rec, pair int, script []string, res c14PairResult) {
+	outs, stat := res.outs, res.stat
 	h := sha256.Sum256([]byte(strings.Join(script, "\n")))
 	r.Op(fmt.Sprintf("pair %d %d %s", r.Shard, pair, hex.EncodeToString(h[:8])), "ok")
 	for _, l := range script {
@@ -958,6 +1260,18 @@ func c14Pair(t *testing.T, r *Rec, pair int, script []string, repo string) {
 				outs[i][j] = c14TmpNote.ReplaceAllString(l, "")
 			}
 		}
+	}
+	wallNote := [2]string{}
+	for i := range outs {
+		for j, l := range outs[i] {
+			if m := c14WallNote.FindStringSubmatch(l); m != nil {
+				wallNote[i] = m[1]
+				outs[i][j] = c14WallNote.ReplaceAllString(l, "")
+			}
+		}
+	}
+	if wallNote[0] == "early" && wallNote[1] == "late" {
+		r.Count("pair.wallclock-straddled") // a time.Now()+15s check would have accepted the header in twin b only
 	}
 	if tmpNote[0] == "true" && tmpNote[1] == "false" {
 		r.Count("pair.tmpdir-differs")
@@ -1042,7 +1356,12 @@ type c14Site struct {
 	Expr  string `json:"expr"`
 	Count int    `json:"count"`
 	Auto  string `json:"auto"`
+	Reach string `json:"reach"`
 }
+
+// classes whose reason is "no path from block processing": the call graph must agree (thorough tier)
+var c14UnreachableClasses = map[string]bool{"class:vendored-ethash-mining-unreachable": true, "class:simulation-only": true, "class:test-support-only": true,
+	"class:abigen-binding-unreachable": true, "class:cli-or-query-only": true}
 
 type c14Report struct {
 	Files         int `json:"files"`
@@ -1070,7 +1389,11 @@ func c14Inventory(t *testing.T, r *Rec, repo string) {
 		return
 	}
 	rep := filepath.Join(outDir(), "C14.sites.report.json")
-	c := exec.Command(bin, "-repo", repo, "-out", filepath.Join(root, "build", "nondetsites.json"), "-expect", filepath.Join(root, "props", "sites-C14.json"), "-report", rep)
+	args := []string{"-repo", repo, "-out", filepath.Join(root, "build", "nondetsites.json"), "-expect", filepath.Join(root, "props", "sites-C14.json"), "-report", rep}
+	if r.Tier == "thorough" {
+		args = append(args, "-reach") // SSA + CHA/RTA call graph from the block-processing roots (≈ 10 s, 3 GB)
+	}
+	c := exec.Command(bin, args...)
 	c.Env = env
 	out, err := c.CombinedOutput()
 	var rp c14Report
@@ -1089,7 +1412,17 @@ func c14Inventory(t *testing.T, r *Rec, repo string) {
 	}
 	var lines [][2]string
 	for _, m := range rp.Matched {
-		lines = append(lines, [2]string{key(m.c14Site) + " " + strings.ReplaceAll(m.Discharge, " ", "_"), "discharged"})
+		l := key(m.c14Site) + " " + strings.ReplaceAll(m.Discharge, " ", "_")
+		if m.Reach != "" {
+			l += " " + m.Reach
+			r.Count("site.reach." + m.Reach)
+			if m.Reach == "reachable" && c14UnreachableClasses[m.Discharge] {
+				r.Find(Finding{Sig: fmt.Sprintf("C14:class-contradicted-by-callgraph:%s:%s:%s", m.File, m.Func, m.Kind),
+					What: fmt.Sprintf("site %s in %s %s is discharged as %s, but the function is reachable from the block-processing roots (SSA + rapid type analysis)", m.Kind, m.File, m.Func, m.Discharge),
+					Ops:  []string{l}, Obs: "reachable", Req: "unreachable / rta-unreachable / init"})
+			}
+		}
+		lines = append(lines, [2]string{l, "discharged"})
 		r.Count("site.matched")
 		r.Count("site.kind." + m.Kind)
 		if strings.HasPrefix(m.Discharge, "theorem:") {
@@ -1132,31 +1465,53 @@ func TestC14(t *testing.T) {
 	r.Extra["repo"] = repo
 
 	if ops := replayOps(t); ops != nil {
-		if strings.HasPrefix(ops[0], "seed ") {
+		switch {
+		case strings.HasPrefix(ops[0], "seed "):
 			c14Pair(t, r, 0, ops, repo)
-		} else {
+		case strings.HasPrefix(ops[0], "site ") || ops[0] == "inventory":
 			c14Inventory(t, r, repo)
+		default:
+			p := newC14Probes()
+			for _, op := range ops {
+				p.apply(r, op, "")
+			}
 		}
 		return
 	}
 	if r.Shard == 0 {
 		c14Inventory(t, r, repo)
 	}
-	pair := 0
+	// loop-model probes (in process): corpus scenarios first, then the random stream
+	probes := newC14Probes()
 	for _, h := range corpusOps("C14") {
-		if r.Shard == 0 && len(h) > 0 && strings.HasPrefix(h[0], "seed ") {
-			c14Pair(t, r, pair, h, repo)
-			pair++
+		if len(h) > 0 && !strings.HasPrefix(h[0], "seed ") && r.Shard == 0 {
+			for _, op := range h {
+				out := probes.apply(r, op, "")
+				cls := strings.Fields(out + " -")[0]
+				if strings.Contains(cls, "=") {
+					cls = "ok"
+				}
+				r.Count("corpus." + strings.Fields(op)[0] + "." + cls)
+			}
 		}
 	}
 	if r.Tier == "thorough" {
-		// 16 shards x 2 = 32 process pairs; every pair replays a long history with two PoW header verifications
-		c14Pair(t, r, pair, c14Script(r, 80, 2), repo)
-		c14Pair(t, r, pair+1, c14Script(r, 80, 2), repo)
+		c14RunProbes(r, probes, 300)
 	} else {
-		// quick: two pairs in parallel, one PoW verification each
-		s1, s2 := c14Script(r, 34, 1), c14Script(r, 34, 1)
-		c14Pair(t, r, pair, s1, repo)
-		c14Pair(t, r, pair+1, s2, repo)
+		c14RunProbes(r, probes, 60)
 	}
+	var scripts [][]string
+	for _, h := range corpusOps("C14") {
+		if r.Shard == 0 && len(h) > 0 && strings.HasPrefix(h[0], "seed ") {
+			scripts = append(scripts, h)
+		}
+	}
+	if r.Tier == "thorough" {
+		// 16 shards x 3 = 48 process pairs; every pair replays a long history with PoW header verifications
+		scripts = append(scripts, c14Script(r, 110, 2), c14Script(r, 110, 2), c14Script(r, 110, 1))
+	} else {
+		// quick: two pairs, one PoW verification each
+		scripts = append(scripts, c14Script(r, 40, 1), c14Script(r, 40, 1))
+	}
+	c14Pairs(t, r, 0, scripts, repo)
 }
